@@ -61,6 +61,7 @@ class Module:
         self.assumes = multi['assumes']
         self.decides = multi['decides']
         self.outside = multi['outside']
+        self.requires = [r.strip() for r in self.meta.get('requires', '').split(',') if r.strip()]
 
 def load_modules():
     mods = []
